@@ -137,13 +137,13 @@ static void build_corpus (void) {
   struct { const char *name, *init, *step; } vb[] = {
     { "string:v=v+v", "\"ab\"", "v = v + v;" },
     { "string:v+=v", "\"ab\"", "v += v;" },
-    { "string:v+=\"x\"", "\"ab\"", "v += \"x\";" },
-    { "string:v=v+\"x\"", "\"ab\"", "v = v + \"x\";" },
-    { "string:v=\"x\"+v", "\"ab\"", "v = \"x\" + v;" },
-    { "string:v=v+int", "\"ab\"", "v = v + 12345;" },
-    { "string:v=int+v", "\"ab\"", "v = 12345 + v;" },
-    { "string:v+=int", "\"ab\"", "v += 12345;" },
-    { "string:v=v+float", "\"ab\"", "v = v + 1.5;" },
+    { "string:v+=\"x\"", "repeat_string(\"a\", @S - 3)", "v += \"x\";" },
+    { "string:v=v+\"x\"", "repeat_string(\"a\", @S - 3)", "v = v + \"x\";" },
+    { "string:v=\"x\"+v", "repeat_string(\"a\", @S - 3)", "v = \"x\" + v;" },
+    { "string:v=v+int", "repeat_string(\"a\", @S - 8)", "v = v + 12345;" },
+    { "string:v=int+v", "repeat_string(\"a\", @S - 8)", "v = 12345 + v;" },
+    { "string:v+=int", "repeat_string(\"a\", @S - 8)", "v += 12345;" },
+    { "string:v=v+float", "repeat_string(\"a\", @S - 8)", "v = v + 1.5;" },
     { "string:gv=gv+gv(global)", "\"ab\"", "gv = v; gv = gv + gv; v = gv;" },
     { "string:repeat_string", "\"ab\"", "v = repeat_string(v, 2);" },
     { "string:repeat_string-big", "\"ab\"", "v = repeat_string(\"ab\", 1 + strlen(v));" },
@@ -163,8 +163,8 @@ static void build_corpus (void) {
     { "string:mapping-of-string+=", "([ 1 : \"ab\" ])", "v[1] += v[1];" },
     { "array:v=v+v", "({ 1, 2 })", "v = v + v;" },
     { "array:v+=v", "({ 1, 2 })", "v += v;" },
-    { "array:v+=({1})", "({ 1, 2 })", "v += ({ 1 });" },
-    { "array:v=v+({1})", "({ 1, 2 })", "v = v + ({ 1 });" },
+    { "array:v+=({1})", "allocate(@A - 3)", "v += ({ 1 });" },
+    { "array:v=v+({1})", "allocate(@A - 3)", "v = v + ({ 1 });" },
     { "array:allocate", "({ 1, 2 })", "v = allocate(sizeof(v) * 2);" },
     { "array:allocate+allocate", "({ 1, 2 })", "v = allocate(sizeof(v)) + allocate(sizeof(v));" },
     { "array:explode", "({ 1, 2 })", "v = explode(repeat_string(\"a,\", sizeof(v) * 2), \",\");" },
@@ -181,9 +181,9 @@ static void build_corpus (void) {
     { "array:call_other-array", "({ 1, 2 })", "n = sizeof(v) * 2; w = allocate(n); for (j = 0; j < n; j++) w[j] = this_object(); v = call_other(w, \"nop\");" },
     { "array:all_inventory", "({ 1, 2 })", "for (j = 0; j < sizeof(v); j++) new(\"/c04/p\")->move_to(this_object()); v = all_inventory(this_object());" },
     { "array:children", "({ 1, 2 })", "for (j = 0; j < sizeof(v); j++) new(\"/c04/p\"); v = children(\"/c04/p\");" },
-    { "mapping:insert-by-index", "([ 0 : 0 ])", "v[sizeof(v)] = 1;" },
-    { "mapping:v+=([k:1])", "([ 0 : 0 ])", "v += ([ sizeof(v) : 1 ]);" },
-    { "mapping:v=v+([k:1])", "([ 0 : 0 ])", "v = v + ([ sizeof(v) : 1 ]);" },
+    { "mapping:insert-by-index", "nearfull()", "v[sizeof(v)] = 1;" },
+    { "mapping:v+=([k:1])", "nearfull()", "v += ([ sizeof(v) : 1 ]);" },
+    { "mapping:v=v+([k:1])", "nearfull()", "v = v + ([ sizeof(v) : 1 ]);" },
     { "mapping:v=v+shifted(v)", "([ 0 : 0 ])", "w = ([]); n = sizeof(v); foreach (x, y in v) w[x + n] = 1; v = v + w;" },
     { "mapping:v+=shifted(v)", "([ 0 : 0 ])", "w = ([]); n = sizeof(v); foreach (x, y in v) w[x + n] = 1; v += w;" },
     { "mapping:unique_mapping", "([ 0 : 0 ])", "w = ([]); n = sizeof(v) * 2; for (j = 0; j < n; j++) w[j] = 1; v = unique_mapping(keys(w), (: $1 :));" },
@@ -204,7 +204,7 @@ static void build_corpus (void) {
                 "  for (i = 0; i < 9; i++) { %s%s%s gv = v; }\n  gw = sizeof(v);",
                 vb[i].init, guarded ? "e = catch { " : "", vb[i].step, guarded ? " };" : "");
       snprintf (name, sizeof name, "build:%s:%s", vb[i].name, guarded ? "each-step-in-catch" : "plain");
-      add_prog ('V', name, "void move_to(object o) { move_object(o); }", body);
+      add_prog ('V', name, "void move_to(object o) { move_object(o); }\nmapping nearfull() { mapping m = ([]); int i; for (i = 0; i < @M - 3; i++) m[i] = i; return m; }", body);
     }
   /* literal aggregates larger than the limit */
   {
@@ -347,7 +347,7 @@ static void elem1 (long idx) {
   char etext[200]; snprintf (etext, sizeof etext, "%s", hx_last_error);
   char rtext[300]; snprintf (rtext, sizeof rtext, "%.290s", r ? hx_canon_s (r) : "ERROR");
   int r_ok = r != 0, r_zero = r && r->type == T_NUMBER && r->u.number == 0;   /* r is a static slot: the next apply overwrites it */
-  if (selftest == 1) insns += 4 * E;
+  if (selftest == 1) insns += 4 * budget;
   if (selftest == 2 && r_zero) limit |= 1;
   vx_obs ("  -> %.200s %.150s  insns=%ld max_depth=%ld max_sp=%ld errors=%d limit_mask=%d", rtext, r ? "" : etext, insns, max_depth, max_sp, vw_nerrors, limit);
   vx_count (0, 1);
